@@ -7,7 +7,7 @@ branch atoms are decided by a finite oracle supplied by the rule (a row of a tru
 or the path forks.  The rule receives, per path: the branch decisions, the ordered event list
 (writes with their abstract values, calls on tracked objects, returns) and the final store.
 """
-import itertools
+import itertools, re
 from facts import Node, Inconclusive
 
 
@@ -873,7 +873,7 @@ class Exec:
                     return old if post else new
                 if base in ('operator=', 'store') and rest and rest[0] is not None:
                     v = self._rvalue(rest[0], st, fr); self.write(loc, v, st, n); return v
-                if base in ('load',) or base.startswith('operator '): return old
+                if base in ('load',) or base.startswith('operator ') or re.search(r'(^|::)operator\s+[A-Za-z_]', q): return old       # load / conversion to T (`operator ns::T`)
                 if base == 'exchange' and rest and rest[0] is not None:
                     v = self._rvalue(rest[0], st, fr); self.write(loc, v, st, n); return old
         # closure invocation
